@@ -137,7 +137,12 @@ func kinds() []copyKind {
 			ext.ReleaseDate = &timestamppb.Timestamp{Seconds: -62135596800} // Go's zero time: the smallest valid timestamp
 			ext.BuildDate = &timestamppb.Timestamp{}                        // the epoch: present but empty message
 			ext.ValidUntilDate = &timestamppb.Timestamp{Seconds: 253402300799, Nanos: 999999999}
-			return map[string]proto.Message{"full": fullNode("A", 2), "full-empty-maps": em, "extreme-dates": ext, "sparse": &sbom.Node{Id: "n", Name: "s", Suppliers: []*sbom.Person{{Name: "sup"}}}, "empty": &sbom.Node{}, "new": sbom.NewNode(), "aliased": aliasedNode()}
+			// every list emptied in place (length 0, the backing array still there): a copy that hands such a list over
+			// as it is shares the array
+			emp := fullNode("C", 3)
+			emp.Licenses, emp.Attribution, emp.FileTypes, emp.PrimaryPurpose = emp.Licenses[:0], emp.Attribution[:0], emp.FileTypes[:0], emp.PrimaryPurpose[:0]
+			emp.Suppliers, emp.Originators, emp.ExternalReferences = emp.Suppliers[:0], emp.Originators[:0], emp.ExternalReferences[:0]
+			return map[string]proto.Message{"emptied-with-capacity": emp, "full": fullNode("A", 2), "full-empty-maps": em, "extreme-dates": ext, "sparse": &sbom.Node{Id: "n", Name: "s", Suppliers: []*sbom.Person{{Name: "sup"}}}, "empty": &sbom.Node{}, "new": sbom.NewNode(), "aliased": aliasedNode()}
 		}, func(m proto.Message) proto.Message { return m.(*sbom.Node).Copy() },
 			func(a, b proto.Message) (bool, bool) { return a.(*sbom.Node).Equal(b.(*sbom.Node)), true }},
 		{"Edge", func() map[string]proto.Message {
@@ -148,7 +153,10 @@ func kinds() []copyKind {
 			p := &sbom.Person{}
 			gen.Full(p, "A", 2)
 			sparePerson(p)
-			return map[string]proto.Message{"full": p, "plain": &sbom.Person{Name: "x", Email: "e"}, "empty": &sbom.Person{}, "aliased": aliasedPerson()}
+			pe := &sbom.Person{}
+			gen.Full(pe, "C", 3)
+			pe.Contacts = pe.Contacts[:0]
+			return map[string]proto.Message{"full": p, "plain": &sbom.Person{Name: "x", Email: "e"}, "empty": &sbom.Person{}, "aliased": aliasedPerson(), "contacts-emptied-with-capacity": pe}
 		}, func(m proto.Message) proto.Message { return m.(*sbom.Person).Copy() },
 			func(a, b proto.Message) (bool, bool) { return false, false }},
 		{"ExternalReference", func() map[string]proto.Message {
